@@ -92,15 +92,15 @@ def engineCase (inp impl : String) : CaseOut :=
           (st', out ++ [String.intercalate "," (obs ++ obs2)], tags ++ [tag])
         | _ => (st, out ++ ["bad-op"], tags)
       else if op.startsWith "poi" then
-        match engPool addr (num 3) with
-        | some k =>
-          -- sendPoisonPill looks the id up in the registry (address not consulted)
-          if st.regd.contains k.id then
-            (st, out ++ [s!"d{engIdx addr (some ⟨addr, k.id⟩)}:pill<-,ctxpending"], tags ++ ["poison.registered"])
-          else
-            let (st', obs2) := esEvent st s!"DL({engIdx addr (some k)},pill,-)"
-            (st', out ++ [String.intercalate "," (["ctxdone"] ++ obs2)], tags ++ ["poison.unknown"])
-        | none =>
+        -- the decision is the model's `HW.Engine.poison` (C07.unknown_pid_done_at_once / known_pid_queued)
+        let target := engPool addr (num 3)
+        match poison (mkEng st) target with
+        | .queued id =>
+          (st, out ++ [s!"d{engIdx addr (some ⟨addr, id⟩)}:pill<-,ctxpending"], tags ++ ["poison.registered"])
+        | .deadLetterDone (some k) =>
+          let (st', obs2) := esEvent st s!"DL({engIdx addr (some k)},pill,-)"
+          (st', out ++ [String.intercalate "," (["ctxdone"] ++ obs2)], tags ++ ["poison.unknown"])
+        | .deadLetterDone none =>
           -- Poison(nil): no process can be found for a nil PID: dead letter with a nil target, context done at once
           let (st', obs2) := esEvent st "DL(-,pill,-)"
           (st', out ++ [String.intercalate "," (["ctxdone"] ++ obs2)], tags ++ ["poison.nil"])
